@@ -117,6 +117,7 @@ fixed("C02", "D16a", "^fix: rebased commits no longer get notes", "after a plain
 fixed("C02", "D11", "^fix: reset --soft/--mixed keeps pending", "pending AI lines in f.txt were dropped by `git reset --soft|--mixed HEAD~1` when the un-done commit only touched g.txt (reconstruct_working_log_after_reset rebuilt only files changed in the un-done range and deleted the old working log)", "c02.reset_of_unrelated_commit_keeps_pending")
 fixed("C02", "D25", "^fix: bare 'git stash' takes", "bare `git stash` (implicit push) skipped the pre-stash human checkpoint that `git stash push` runs, so a person's unreported insertion above pending AI lines left stale line numbers in the stash note and an AI line came back human after pop", "c02.bare_stash_after_unreported_human_edit")
 
+fixed("C12", "D46", "^fix: notes search pins --no-color", "with color.ui=always (or color.grep=always) a rebase that takes the full replay (upstream changed the same file above the AI lines) wrote notes listing the session but with an empty prompts object: grep_ai_notes parsed coloured `git grep` output and found nothing (hash without prompt record; result depends on git configuration)", "c12.color_ui_always_hides_prompt_records_in_rebased_notes")
 open_("C11", "D8", "C11/not-serializable@overlapping-journal-windows", [],
       "schedule: two `git-ai checkpoint` processes (agents S1 on a.txt, S2 on b.txt) both pass their read of .git/ai/working_logs/<HEAD>/checkpoints.jsonl before either writes it back (append_checkpoint and post-commit read-modify-write the journal with no lock) => the later write drops the other record and that agent's line is committed as human; identified by call site: any non-serializable outcome whose schedule has two journal read..exit windows overlapping is counted as this finding",
       "c11.two_checkpoints_both_read_before_either_writes", [])
